@@ -77,3 +77,12 @@ func init() {
 		})
 	}
 }
+
+func hasWitness(id string) bool {
+	for _, w := range witnesses {
+		if w.id == id {
+			return true
+		}
+	}
+	return false
+}
